@@ -12,6 +12,7 @@ OBLIGATIONS = [
     "Pkgcore.C06.dnf_equiv_counterexample",
     "Pkgcore.C06.dnf_negated_anyof",
     "Pkgcore.C06.dnf_equiv_nonempty",
+    "Pkgcore.C06.dnf_complete_unguarded",
     "Pkgcore.C06.dnf_total",
     "Pkgcore.C06.cnf_equiv_partial",
     "Pkgcore.C06.cnf_equiv_counterexample",
